@@ -37,7 +37,7 @@ def hf_tuple_of_any(x, type_=None):
     hf0 = lambda x: x if (type_ is None) else type_(x)
     if isinstance(x,collections.abc.Iterable):
         if isinstance(x, np.ndarray):
-            ret = [hf0(y) for y in np.nditer(x)]
+            ret = [hf0(y) for y in np.nditer(x, order='C')] #logical (C) order: the default 'K' follows the memory layout (reversed / transposed views)
         else:
             # error when x is np.array(0)
             ret = tuple(hf0(y) for y in x)
